@@ -1,10 +1,16 @@
 /-
 C09 — CLP linking aligns global axes faithfully.  Property theorems only
-(helper lemmas: GlotaranProofs/Lemmas/C09.lean).  All statements are about the model
-`Glotaran.C09` of `DataProviderLinked` (after fix D2), for axes, targets and dataset lists of
-any length, any rational tolerance and every method.
+(helper lemmas: GlotaranProofs/Lemmas/C09.lean, C09Result.lean, C09C02.lean).  The statements are about
+the model `Glotaran.C09` of `DataProviderLinked` (after fix D2) and of the residual part of
+`EstimationProviderLinked.get_result` (after fix D27), and — last section — about the second model of the
+same alignment inside `Glotaran.C02` (the one the drivers of C02, C03, C08, C13, C14 execute), which is
+proved equal to the first.  All for axes, targets and dataset lists of any length, any rational tolerance
+and every method.
 -/
 import GlotaranProofs.Lemmas.C09
+import GlotaranProofs.Lemmas.C09C02
+import GlotaranProofs.Lemmas.C09Result
+import GlotaranProofs.Lemmas.C03
 namespace Glotaran.C09
 
 /-! ## `align_index` -/
@@ -254,6 +260,26 @@ theorem aligned_rows_nodup (tol : Rat) (m : Method) (axes al : List (List Rat))
     · rw [h] at hal'; cases hal'
       exact hnd (d + 1) row (by omega) hd
 
+/-- every aligned row has as many points as the dataset's own axis -/
+theorem aligned_rows_same_length (tol : Rat) (m : Method) (axes al : List (List Rat))
+    (h : createAlignedAxes tol m axes = some al) (d : Nat) :
+    (al[d]?).map List.length = (axes[d]?).map List.length := by
+  obtain ⟨hlen, hhead, hspec⟩ := assignment_is_self_or_nearest_aligned tol m axes al h
+  cases d with
+  | zero => rw [← List.head?_eq_getElem?, ← List.head?_eq_getElem?, hhead]
+  | succ d =>
+    cases hax : axes[d + 1]? with
+    | none =>
+      have : al[d + 1]? = none := by
+        rw [List.getElem?_eq_none_iff] at hax ⊢; omega
+      rw [this]
+    | some ax =>
+      obtain ⟨row, hrow, hl, _⟩ := hspec (d + 1) ax (by omega) hax
+      rw [hrow]; simp [hl]
+
+example : ([[1, 5, 6], [1, 3, 6, 10]] : List (List Rat)).map List.length = [[1, 5, 6], [0, 3, 7, (10 : Rat)]].map List.length := by
+  decide
+
 /-- **`AlignDatasetError` is raised iff two points of one dataset would be merged**: the
     alignment is refused exactly when, for some dataset `d ≥ 1`, the datasets before it align
     without error and two of its points `j < k` get the same aligned point. -/
@@ -396,12 +422,12 @@ theorem every_column_once (al : List (List Rat)) (hn : ∀ row ∈ al, row.Nodup
       exact lt_irrefl _ hvw
   exact ⟨hnodup, hmem, fun d j h => List.count_eq_one_of_mem hnodup ((hmem d j).mpr h), hsorted⟩
 
-/-- **Results are reported under the original coordinate**: when every dataset's own axis is
-    strictly increasing, the aligned points at which dataset `d` takes part, read off the aligned
-    axis in increasing order, are exactly `al[d]` — the aligned points of its first, second, …
-    original coordinate (this is the positional re-labelling `EstimationProviderLinked.get_result`
-    performs). -/
-theorem reported_under_original_coordinate (tol : Rat) (m : Method) (axes al : List (List Rat))
+/-- **The aligned points of a dataset come in the order of its own axis**: when every dataset's
+    own axis is strictly increasing, the aligned points at which dataset `d` takes part, read off
+    the aligned axis in increasing order, are exactly `al[d]` — the aligned points of its first,
+    second, … original coordinate (the positional re-labelling of
+    `EstimationProviderLinked.get_result` relies on this; see `reported_under_original_coordinate`). -/
+theorem member_points_in_axis_order (tol : Rat) (m : Method) (axes al : List (List Rat))
     (h : createAlignedAxes tol m axes = some al) (hs : ∀ ax ∈ axes, ax.Pairwise (· < ·))
     (d : Nat) (row : List Rat) (hrow : al[d]? = some row) :
     row.Pairwise (· < ·) ∧ (alignedAxis al).filter (fun v => decide (v ∈ row)) = row := by
@@ -477,5 +503,436 @@ example : (tablesOf [⟨"d1", 2, [1], [[1, 2]], none⟩, ⟨"d2", 1, [1], [[3]],
     = [some [1, 1, 1/2]] := by decide +kernel
 example : (tablesOf [⟨"d1", 2, [1], [[1, 2]], none⟩, ⟨"d2", 1, [1], [[3]], some [[1/2]]⟩] [[1], [1]]).data
     = [[1, 2, 3/2]] := by decide +kernel
+
+/-! ## results: `EstimationProviderLinked.get_result` cuts the stacked residuals back -/
+
+/-- labels of the datasets present at aligned value `v`, in dataset order -/
+def memberLabels (dss : List Dataset) (al : List (List Rat)) (v : Rat) : List String :=
+  (members al v).map (fun p => (dss.getD p.1 default).label)
+
+/-- no two aligned points with different member lists get the same concatenated group label
+    (`"".join(labels)` is the key of `group_definitions`; C03 records the colliding case as D9b) -/
+def GroupLabelsUnambiguous (dss : List Dataset) (al : List (List Rat)) : Prop :=
+  ∀ v ∈ alignedAxis al, ∀ w ∈ alignedAxis al,
+    String.join (memberLabels dss al v) = String.join (memberLabels dss al w) →
+      memberLabels dss al v = memberLabels dss al w
+
+/-- offset of dataset `d`'s block in the stacked vectors of aligned point `v`: the summed
+    model-axis sizes of the members stacked before it -/
+def blockOffset (dss : List Dataset) (al : List (List Rat)) (v : Rat) (d : Nat) : Nat :=
+  (((members al v).takeWhile (fun p => p.1 != d)).map (fun p => (dss.getD p.1 default).msize)).sum
+
+private theorem filterMap_posOf (row : List Rat) (C : Rat → List Rat) : ∀ l : List Rat,
+    l.filterMap (fun v => (posOf v row).map (fun j => (j, C v))) =
+      (l.filter (fun v => decide (v ∈ row))).map (fun v => ((posOf v row).getD 0, C v)) := by
+  intro l
+  induction l with
+  | nil => rfl
+  | cons v l ih =>
+    by_cases hv : v ∈ row
+    · obtain ⟨j, hj⟩ := (posOf_isSome_iff v row).mpr hv
+      simp [hj, hv, ih]
+    · simp [posOf_eq_none v row hv, hv, ih]
+
+private theorem tablesOf_labels (dss : List Dataset) (al : List (List Rat)) :
+    (tablesOf dss al).labels = (alignedAxis al).map (fun v => String.join (memberLabels dss al v)) := by
+  simp [tablesOf, memberLabels, List.map_map, Function.comp_def]
+
+private theorem tablesOf_indices (dss : List Dataset) (al : List (List Rat)) :
+    (tablesOf dss al).indices = (alignedAxis al).map (fun v => (members al v).map (·.2)) := by
+  simp [tablesOf, List.map_map, Function.comp_def]
+
+private theorem tablesOf_defs (dss : List Dataset) (al : List (List Rat)) :
+    (tablesOf dss al).defs = groupDefs [] ((alignedAxis al).map
+      (fun v => (String.join (memberLabels dss al v), memberLabels dss al v))) := by
+  simp [tablesOf, memberLabels, List.map_map, Function.comp_def, List.zip_map']
+
+/-- **Results are reported under the original coordinate.**  Let the datasets' labels be distinct,
+    concatenated group labels unambiguous and the first dataset's own axis free of repeated
+    coordinates (for the later ones the refusal guarantees it), and let `R v` be the stacked
+    residual of the aligned point `v` (any vectors).  Then the residual columns `get_result`
+    reports for dataset `d` are, **in the order of the dataset's own global axis — increasing or
+    not** (`row = al[d]` has one aligned point per own coordinate, `(d, j)` is a member of
+    `row[j]`), the blocks cut out of the stacked residual **of the aligned point of `(d, j)`** at
+    the offset of `d` among the members stacked there: the j-th reported column, which the code
+    labels with the dataset's j-th coordinate, comes from `R (al[d][j])` and from nowhere else.
+    (Before fix D27 this held for increasing axes only, see the regression example below.) -/
+theorem reported_under_original_coordinate (tol : Rat) (m : Method) (dss : List Dataset) (al : List (List Rat))
+    (h : createAlignedAxes tol m (dss.map (·.axis)) = some al)
+    (h0 : ∀ ds, dss.head? = some ds → ds.axis.Nodup) (hlab : (dss.map (·.label)).Nodup)
+    (hjoin : GroupLabelsUnambiguous dss al) (R : Rat → List Rat)
+    (d : Nat) (ds : Dataset) (row : List Rat) (hds : dss[d]? = some ds) (hrow : al[d]? = some row) :
+    row.length = ds.axis.length ∧
+    (∀ j (hj : j < row.length), (d, j) ∈ members al row[j]) ∧
+    resultResidual dss (tablesOf dss al) ((alignedAxis al).map R) ds.label =
+      row.map (fun v => ((R v).drop (blockOffset dss al v d)).take ds.msize) := by
+  have hn : ∀ r ∈ al, r.Nodup := by
+    apply aligned_rows_nodup tol m _ al h
+    intro ax hax
+    rw [List.head?_map] at hax
+    cases hh : dss.head? with
+    | none => rw [hh] at hax; cases hax
+    | some ds0 =>
+      rw [hh] at hax
+      simp only [Option.map_some, Option.some.injEq] at hax
+      exact hax ▸ h0 ds0 hh
+  have hlen' : al.length = dss.length := by
+    simpa using (assignment_is_self_or_nearest_aligned tol m _ al h).1
+  have hdlt : d < dss.length := (List.getElem?_eq_some_iff.mp hds).1
+  have hdsmem : ds ∈ dss := List.mem_of_getElem? hds
+  have hgetD : dss.getD d default = ds := by simp [List.getD_eq_getElem?_getD, hds]
+  have hrn : row.Nodup := hn row (List.mem_of_getElem? hrow)
+  refine ⟨?_, ?_, ?_⟩
+  · have hl := aligned_rows_same_length tol m _ al h d
+    rw [hrow, List.getElem?_map, hds] at hl
+    simpa using hl
+  · intro j hj
+    exact (mem_members_iff al hn _ d j).mpr ⟨row, hrow, List.getElem?_eq_getElem hj⟩
+  · unfold resultResidual
+    rw [tablesOf_labels, tablesOf_indices, tablesOf_defs, List.zip_map', List.zip_map', List.filterMap_map]
+    have hG : ∀ v ∈ alignedAxis al,
+        ((fun lir : (String × List Nat) × List Rat => resultPart (msizeOf dss)
+            (lookupDef (groupDefs [] ((alignedAxis al).map
+              (fun v => (String.join (memberLabels dss al v), memberLabels dss al v)))) lir.1.1)
+            lir.1.2 lir.2 ds.label) ∘
+          (fun v => ((String.join (memberLabels dss al v), (members al v).map (·.2)), R v))) v =
+        (posOf v row).map (fun j => (j, ((R v).drop (blockOffset dss al v d)).take ds.msize)) := by
+      intro v hv
+      simp only [Function.comp]
+      rw [lookupDef_groupDefs, List.nil_append,
+        lookupDef_map_first (fun v => String.join (memberLabels dss al v)) (memberLabels dss al)
+          (alignedAxis al) v hv (fun u hu he => hjoin u hu v hv he)]
+      have hinj : ∀ p ∈ members al v,
+          (dss.getD p.1 default).label = (dss.getD d default).label → p.1 = d := by
+        intro p hp he
+        have hplt : p.1 < dss.length := by rw [← hlen']; exact members_lt al v p hp
+        have hnd := List.nodup_iff_injective_getElem.mp hlab
+        have e1 : (dss.map (·.label))[p.1]'(by simpa using hplt) = (dss.getD p.1 default).label := by
+          simp [List.getD_eq_getElem?_getD, List.getElem?_eq_getElem hplt]
+        have e2 : (dss.map (·.label))[d]'(by simpa using hdlt) = (dss.getD d default).label := by
+          simp [List.getD_eq_getElem?_getD, List.getElem?_eq_getElem hdlt]
+        have := @hnd ⟨p.1, by simpa using hplt⟩ ⟨d, by simpa using hdlt⟩ (by simp only [e1, e2, he])
+        exact Fin.mk.inj_iff.mp this
+      have hpart := resultPart_members (msizeOf dss) (fun i => (dss.getD i default).label) d (members al v) (R v) hinj
+      simp only [hgetD] at hpart
+      unfold memberLabels
+      rw [hpart, find_members al v d row hrow, Option.map_map]
+      have hoff : ((members al v).takeWhile (fun p => p.1 != d)).map
+            (fun p => msizeOf dss (dss.getD p.1 default).label) =
+          ((members al v).takeWhile (fun p => p.1 != d)).map (fun p => (dss.getD p.1 default).msize) := by
+        apply List.map_congr_left
+        intro p hp
+        have hplt : p.1 < dss.length := by
+          rw [← hlen']; exact members_lt al v p ((List.takeWhile_sublist _).subset hp)
+        apply msizeOf_label dss hlab
+        simp [List.getD_eq_getElem?_getD, List.getElem?_eq_getElem hplt]
+      rw [hoff, msizeOf_label dss hlab ds hdsmem]
+      rfl
+    rw [List.filterMap_congr hG, filterMap_posOf]
+    -- the collected parts are a permutation of the parts in own-axis order, whose keys increase
+    have hperm : ((alignedAxis al).filter (fun v => decide (v ∈ row))).Perm row := by
+      apply (List.perm_ext_iff_of_nodup ((unique_nodup _).filter _) hrn).mpr
+      intro v
+      simp only [List.mem_filter, decide_eq_true_eq]
+      constructor
+      · exact fun hv => hv.2
+      · intro hv
+        refine ⟨?_, hv⟩
+        rw [mem_unique, List.mem_flatten]
+        exact ⟨row, List.mem_of_getElem? hrow, hv⟩
+    have hkeys : (row.map (fun v => ((posOf v row).getD 0,
+        ((R v).drop (blockOffset dss al v d)).take ds.msize))).Pairwise (fun a b => a.1 < b.1) := by
+      rw [List.pairwise_map, List.pairwise_iff_getElem]
+      intro i j hi hj hij
+      simp only [posOf_getElem row hrn i hi, posOf_getElem row hrn j hj, Option.getD_some]
+      exact hij
+    rw [sortByKey_eq_of_perm _ _ (hperm.map _) hkeys, List.map_map]
+    rfl
+
+-- non-vacuity: the repository's test axes (tolerance 1, nearest), labels d1/d2, model-axis sizes 2 and 1;
+-- the stacked residual of aligned point v is [v, 10 v, 100 v]: d2's four reported columns are cut at
+-- offset 2 where d1 is stacked before it (aligned points 1 and 6) and at offset 0 where it is alone
+example : GroupLabelsUnambiguous [⟨"d1", 2, [1, 5, 6], [], none⟩, ⟨"d2", 1, [0, 3, 7, 10], [], none⟩]
+    [[1, 5, 6], [1, 3, 6, 10]] := by
+  intro v hv w hw
+  have e : alignedAxis [[1, 5, 6], [1, 3, 6, 10]] = [1, 3, 5, 6, 10] := by decide +kernel
+  rw [e] at hv hw
+  simp only [List.mem_cons, List.not_mem_nil, or_false] at hv hw
+  rcases hv with rfl | rfl | rfl | rfl | rfl <;> rcases hw with rfl | rfl | rfl | rfl | rfl <;> decide +kernel
+example : resultResidual [⟨"d1", 2, [1, 5, 6], [], none⟩, ⟨"d2", 1, [0, 3, 7, 10], [], none⟩]
+    (tablesOf [⟨"d1", 2, [1, 5, 6], [], none⟩, ⟨"d2", 1, [0, 3, 7, 10], [], none⟩] [[1, 5, 6], [1, 3, 6, 10]])
+    ((alignedAxis [[1, 5, 6], [1, 3, 6, 10]]).map (fun v => [v, 10 * v, 100 * v])) "d2"
+    = [[100], [3], [600], [10]] := by decide +kernel
+
+-- regression (D27): dataset d1 with the decreasing axis [3, 1] linked with d2 on [2]; the stacked residual of
+-- aligned point v is [v].  The old code reported d1's columns in aligned-axis order ([1] under coordinate 3,
+-- [3] under coordinate 1); the fixed code reports [3], [1] — the blocks of the aligned points of 3 and 1.
+example : createAlignedAxes 0 .nearest [[3, 1], [2]] = some [[3, 1], [2]] ∧
+    resultResidualBeforeD27 [⟨"d1", 1, [3, 1], [], none⟩, ⟨"d2", 1, [2], [], none⟩]
+      (tablesOf [⟨"d1", 1, [3, 1], [], none⟩, ⟨"d2", 1, [2], [], none⟩] [[3, 1], [2]])
+      ((alignedAxis [[3, 1], [2]]).map (fun v => [v])) "d1" = [[1], [3]] ∧
+    resultResidual [⟨"d1", 1, [3, 1], [], none⟩, ⟨"d2", 1, [2], [], none⟩]
+      (tablesOf [⟨"d1", 1, [3, 1], [], none⟩, ⟨"d2", 1, [2], [], none⟩] [[3, 1], [2]])
+      ((alignedAxis [[3, 1], [2]]).map (fun v => [v])) "d1" = [[3], [1]] := by decide +kernel
+
+private theorem split_at_find (d : Nat) : ∀ (ms : List (Nat × Nat)) (q : Nat × Nat),
+    ms.find? (fun p => p.1 == d) = some q → ∃ post, ms = ms.takeWhile (fun p => p.1 != d) ++ q :: post := by
+  intro ms
+  induction ms with
+  | nil => intro q h; cases h
+  | cons p rest ih =>
+    intro q h
+    rw [List.find?_cons] at h
+    by_cases hp : p.1 = d
+    · simp only [hp, beq_self_eq_true, Option.some.injEq] at h
+      subst h
+      exact ⟨rest, by simp [hp]⟩
+    · have hb : (p.1 == d) = false := by simpa using hp
+      rw [hb] at h
+      obtain ⟨post, hpost⟩ := ih q h
+      refine ⟨post, ?_⟩
+      have hnb : (p.1 != d) = true := by simpa using hp
+      rw [List.takeWhile_cons, hnb]
+      simp only [if_true, List.cons_append]
+      rw [← hpost]
+
+/-- **…and the block cut is the dataset's own block** (composition with C03's `unstack_stack`):
+    if the stacked residual of every aligned point is the concatenation of one block `B e k` per
+    member `(e, k)` (of the member's model-axis size, in member order — what `align_data` and the
+    solver produce), then the column reported for dataset `d` under its own j-th coordinate is
+    exactly `B d j`. -/
+theorem reported_block_is_own_block (tol : Rat) (m : Method) (dss : List Dataset) (al : List (List Rat))
+    (h : createAlignedAxes tol m (dss.map (·.axis)) = some al)
+    (h0 : ∀ ds, dss.head? = some ds → ds.axis.Nodup) (hlab : (dss.map (·.label)).Nodup)
+    (hjoin : GroupLabelsUnambiguous dss al) (B : Nat → Nat → List Rat)
+    (hB : ∀ e k, (B e k).length = (dss.getD e default).msize)
+    (d : Nat) (ds : Dataset) (hds : dss[d]? = some ds) :
+    resultResidual dss (tablesOf dss al)
+      ((alignedAxis al).map (fun v => ((members al v).map (fun p => B p.1 p.2)).flatten)) ds.label =
+      (List.range ds.axis.length).map (B d) := by
+  have hdlt : d < dss.length := (List.getElem?_eq_some_iff.mp hds).1
+  have hlen := (assignment_is_self_or_nearest_aligned tol m _ al h).1
+  have hdal : d < al.length := by rw [hlen]; simpa using hdlt
+  have hrow : al[d]? = some al[d] := List.getElem?_eq_getElem hdal
+  have hgetD : dss.getD d default = ds := by simp [List.getD_eq_getElem?_getD, hds]
+  obtain ⟨hrl, hmem, hres⟩ := reported_under_original_coordinate tol m dss al h h0 hlab hjoin
+    (fun v => ((members al v).map (fun p => B p.1 p.2)).flatten) d ds al[d] hds hrow
+  have hn : al[d].Nodup := by
+    apply aligned_rows_nodup tol m _ al h _ _ (List.getElem_mem hdal)
+    intro ax hax
+    rw [List.head?_map] at hax
+    cases hh : dss.head? with
+    | none => rw [hh] at hax; cases hax
+    | some ds0 =>
+      rw [hh] at hax
+      simp only [Option.map_some, Option.some.injEq] at hax
+      exact hax ▸ h0 ds0 hh
+  rw [hres, ← hrl]
+  apply List.ext_getElem
+  · simp
+  · intro j h1 h2
+    have hj : j < al[d].length := by simpa using h1
+    simp only [List.getElem_map, List.getElem_range]
+    -- the members of the aligned point of (d, j): `pre ++ (d, j) :: post`
+    have hfind := find_members al al[d][j] d al[d] hrow
+    rw [posOf_getElem al[d] hn j hj] at hfind
+    obtain ⟨post, hsplit⟩ := split_at_find d _ _ hfind
+    unfold blockOffset
+    generalize (members al al[d][j]).takeWhile (fun p => p.1 != d) = pre at hsplit
+    rw [hsplit]
+    have hunstack := C03.unstack_stack_sum ((pre ++ (d, j) :: post).map (fun p => B p.1 p.2)) pre.length (by simp)
+    have htake : ((pre ++ (d, j) :: post).map (fun p => B p.1 p.2)).take pre.length = pre.map (fun p => B p.1 p.2) := by
+      rw [List.map_append, List.take_left' (by simp)]
+    have hk : ((pre ++ (d, j) :: post).map (fun p => B p.1 p.2))[pre.length]'(by simp) = B d j := by
+      simp [List.getElem_append_right]
+    rw [htake, hk, hB d j, hgetD] at hunstack
+    have hsum : (pre.map (fun p => (dss.getD p.1 default).msize)).sum =
+        ((pre.map (fun p => B p.1 p.2)).map List.length).sum := by
+      rw [List.map_map]
+      congr 1
+      apply List.map_congr_left
+      intro p _
+      exact (hB p.1 p.2).symm
+    rw [hsum]
+    exact hunstack
+
+-- the same tables: the stacked residual of aligned point v is built from the blocks B e k = [100 e + k] repeated
+-- (model-axis size of e); d1 (size 2) gets its three own blocks back, d2 (size 1) its four
+example : (List.range 3).map (fun k => List.replicate 2 ((100 : Rat) * 0 + k)) = [[0, 0], [1, 1], [2, 2]] ∧
+    resultResidual [⟨"d1", 2, [1, 5, 6], [], none⟩, ⟨"d2", 1, [0, 3, 7, 10], [], none⟩]
+    (tablesOf [⟨"d1", 2, [1, 5, 6], [], none⟩, ⟨"d2", 1, [0, 3, 7, 10], [], none⟩] [[1, 5, 6], [1, 3, 6, 10]])
+    ((alignedAxis [[1, 5, 6], [1, 3, 6, 10]]).map (fun v => ((members [[1, 5, 6], [1, 3, 6, 10]] v).map
+      (fun p => List.replicate (if p.1 = 0 then 2 else 1) ((100 : Rat) * p.1 + p.2))).flatten)) "d1"
+    = [[0, 0], [1, 1], [2, 2]] := by decide +kernel
+
+/-! ## the alignment model of C02 (executed by the drivers of C02, C03, C08, C13, C14) is this model
+
+`Glotaran.C02.alignIndex / alignAxes / alignedAxisOf / memberIdx / linkedProblems` are a second,
+independently written model of `DataProviderLinked` (left fold with a strict comparison instead of
+a right recursion, insertion into the accumulated axis instead of `unique`, `zip`/`idxOf?` instead
+of a counter).  The equalities are proved in Lemmas/C09C02.lean; here the property theorems are
+transferred to the C02 definitions.  `ofC02`/`toC02` translate the two method enumerations. -/
+
+/-- **The two hand-written models of the alignment are the same functions**, for every input:
+    `align_index`, `create_aligned_global_axes` (same aligned axes, same refusal), the aligned
+    axis, the members of an aligned point. -/
+theorem c02_alignment_model_eq_c09 :
+    (∀ x target tol m, C02.alignIndex x target tol m = alignIndex x target tol (ofC02 m)) ∧
+    (∀ axes tol m, C02.alignAxes axes tol m = createAlignedAxes tol (ofC02 m) axes) ∧
+    (∀ aligned, C02.alignedAxisOf aligned = alignedAxis aligned) ∧
+    (∀ aligned v, C02.memberIdx aligned v = members aligned v) ∧
+    (∀ m, toC02 (ofC02 m) = m) ∧ (∀ m, ofC02 (toC02 m) = m) :=
+  ⟨c02_alignIndex_eq_c09', c02_alignAxes_eq_c09', c02_alignedAxisOf_eq, c02_memberIdx_eq, toC02_ofC02, ofC02_toC02⟩
+
+-- the input on which the two models differed before C02's accumulated axis was made `np.unique` of the
+-- concatenation (unsorted first axis, third dataset equally near to 1 and 2): both now link 3/2 to 1, as the code does
+example : C02.alignAxes [[3, 1], [2], [3/2]] (1/2) .nearest = some [[3, 1], [2], [1]] ∧
+    createAlignedAxes (1/2) .nearest [[3, 1], [2], [3/2]] = some [[3, 1], [2], [1]] := by decide +kernel
+example : C02.alignIndex (11/2) [1, 5, 6] 1 .forward = 6 ∧ C02.alignIndex (11/2) [6, 1, 5] 1 .backward = 5 := by
+  decide +kernel
+example : C02.alignedAxisOf [[1, 5, 6], [1, 3, 6, 10]] = [1, 3, 5, 6, 10] ∧
+    C02.memberIdx [[1, 5, 6], [1, 3, 6, 10]] 6 = [(0, 2), (1, 2)] := by decide +kernel
+
+/-- `alignIndex_spec` for C02's `alignIndex` -/
+theorem c02_alignIndex_spec (x : Rat) (target : List Rat) (tol : Rat) (m : C02.Method) :
+    (C02.alignIndex x target tol m = x ∧ NoneWithin (ofC02 m) target tol x) ∨
+      LinkedTo (ofC02 m) target tol x (C02.alignIndex x target tol m) := by
+  rw [c02_alignIndex_eq_c09']
+  exact alignIndex_spec x target tol (ofC02 m)
+
+/-- `assignment_is_self_or_nearest_aligned` for C02's `alignAxes` -/
+theorem c02_assignment_is_self_or_nearest_aligned (tol : Rat) (m : C02.Method) (axes al : List (List Rat))
+    (h : C02.alignAxes axes tol m = some al) :
+    al.length = axes.length ∧ al.head? = axes.head? ∧
+    ∀ d ax, 0 < d → axes[d]? = some ax → ∃ row, al[d]? = some row ∧ row.length = ax.length ∧
+      ∀ (j : Nat) (x : Rat), ax[j]? = some x →
+        ∃ r, row[j]? = some r ∧ AssignedOK (ofC02 m) tol (al.take d).flatten x r := by
+  rw [c02_alignAxes_eq_c09'] at h
+  exact assignment_is_self_or_nearest_aligned tol (ofC02 m) axes al h
+
+/-- `injective_per_dataset_or_error` for C02's `alignAxes` (`none` = `AlignDatasetError`) -/
+theorem c02_injective_per_dataset_or_error (tol : Rat) (m : C02.Method) (axes : List (List Rat)) :
+    C02.alignAxes axes tol m = none ∨
+    ∃ al, C02.alignAxes axes tol m = some al ∧ ∀ d row, 0 < d → al[d]? = some row → row.Nodup := by
+  rw [c02_alignAxes_eq_c09']
+  exact injective_per_dataset_or_error tol (ofC02 m) axes
+
+/-- `error_iff_some_dataset_merges` for C02's `alignAxes` -/
+theorem c02_error_iff_some_dataset_merges (tol : Rat) (m : C02.Method) (axes : List (List Rat)) :
+    C02.alignAxes axes tol m = none ↔
+    ∃ d al' ax, 0 < d ∧ C02.alignAxes (axes.take d) tol m = some al' ∧ axes[d]? = some ax ∧
+      ∃ (j k : Nat) (hj : j < ax.length) (hk : k < ax.length), j < k ∧
+        C02.alignIndex ax[j] (accOf al') tol m = C02.alignIndex ax[k] (accOf al') tol m := by
+  simp only [c02_alignAxes_eq_c09', c02_alignIndex_eq_c09']
+  exact error_iff_some_dataset_merges tol (ofC02 m) axes
+
+example : C02.alignAxes [[1, 5, 6], [1/2, 3/2]] 1 .nearest = none := by decide +kernel
+example : C02.alignAxes [[1, 5, 6], [0, 3, 7, 10]] 1 .backward = some [[1, 5, 6], [0, 3, 6, 10]] := by
+  decide +kernel
+
+/-- `aligned_axis_strictly_increasing` for the stacked problems C02's `linkedProblems` builds:
+    one problem per aligned point, in strictly increasing order of the aligned value, and the
+    aligned values are exactly the assigned points. -/
+theorem c02_aligned_axis_strictly_increasing (mi : C02.ModelItems) (g : C02.Group) (axis : List Rat)
+    (ps : List C02.IndexProblem) (h : C02.linkedProblems mi g = some (axis, ps)) :
+    axis.Pairwise (· < ·) ∧ ps.map (·.x) = axis ∧
+    ∃ aligned, C02.alignAxes (g.datasets.map (·.globalAxis)) g.tol g.method = some aligned ∧
+      axis = C02.alignedAxisOf aligned ∧ ∀ v, v ∈ axis ↔ v ∈ aligned.flatten := by
+  obtain ⟨aligned, hal, _, hax, hx, _⟩ := c02_linkedProblems_tables mi g axis ps h
+  refine ⟨hax ▸ unique_sorted _, hx, aligned, hal, by rw [c02_alignedAxisOf_eq]; exact hax, ?_⟩
+  intro v
+  rw [hax]
+  exact mem_unique v _
+
+/-- `assignment_total_unique` on C02's tables -/
+theorem c02_assignment_total_unique (al : List (List Rat)) (hn : ∀ row ∈ al, row.Nodup)
+    (d j : Nat) (row : List Rat) (x : Rat) (hrow : al[d]? = some row) (hx : row[j]? = some x) :
+    ∃! i : Nat, ∃ v, (C02.alignedAxisOf al)[i]? = some v ∧ (d, j) ∈ C02.memberIdx al v := by
+  simp only [c02_alignedAxisOf_eq, c02_memberIdx_eq]
+  exact assignment_total_unique al hn d j row x hrow hx
+
+/-- `shares_clp_iff_same_aligned_point` on C02's tables -/
+theorem c02_shares_clp_iff_same_aligned_point (al : List (List Rat)) (hn : ∀ row ∈ al, row.Nodup)
+    (d j d' j' : Nat) :
+    (∃ v ∈ C02.alignedAxisOf al, (d, j) ∈ C02.memberIdx al v ∧ (d', j') ∈ C02.memberIdx al v) ↔
+    ∃ row row' x, al[d]? = some row ∧ al[d']? = some row' ∧ row[j]? = some x ∧ row'[j']? = some x := by
+  simp only [c02_alignedAxisOf_eq, c02_memberIdx_eq]
+  exact shares_clp_iff_same_aligned_point al hn d j d' j'
+
+/-- `every_column_once` for the stacked problems of C02's `linkedProblems`: the data vector of the
+    problem at aligned point `v` is the (weighted) data columns of C02's members of `v` in member
+    order, and over all problems every column `(d, j)` of every dataset — `j` below the length of
+    its global axis — is stacked exactly once.  (Hypothesis: the first dataset's own axis has no
+    repeated coordinate; later datasets are covered by the refusal.) -/
+theorem c02_every_column_once (mi : C02.ModelItems) (g : C02.Group) (axis : List Rat)
+    (ps : List C02.IndexProblem) (h : C02.linkedProblems mi g = some (axis, ps))
+    (h0 : ∀ ds, g.datasets.head? = some ds → ds.globalAxis.Nodup) :
+    ∃ aligned, C02.alignAxes (g.datasets.map (·.globalAxis)) g.tol g.method = some aligned ∧
+      ps.map (·.data) = axis.map (fun v => (C02.memberIdx aligned v).flatMap
+        (fun p => LinAlg.col (g.datasets.getD p.1 default).weightedData p.2)) ∧
+      ((axis.map (C02.memberIdx aligned)).flatten).Nodup ∧
+      (∀ d j, (d, j) ∈ (axis.map (C02.memberIdx aligned)).flatten ↔
+        ∃ ds, g.datasets[d]? = some ds ∧ j < ds.nGlobal) ∧
+      ∀ d j, (∃ ds, g.datasets[d]? = some ds ∧ j < ds.nGlobal) →
+        ((axis.map (C02.memberIdx aligned)).flatten).count (d, j) = 1 := by
+  obtain ⟨aligned, hal, hlen, hax, _, hdata⟩ := c02_linkedProblems_tables mi g axis ps h
+  have hal' := hal
+  rw [c02_alignAxes_eq_c09'] at hal'
+  have hn : ∀ row ∈ aligned, row.Nodup := by
+    apply aligned_rows_nodup g.tol (ofC02 g.method) _ aligned hal'
+    intro ax hax'
+    rw [List.head?_map] at hax'
+    cases hh : g.datasets.head? with
+    | none => rw [hh] at hax'; cases hax'
+    | some ds =>
+      rw [hh] at hax'
+      simp only [Option.map_some, Option.some.injEq] at hax'
+      exact hax' ▸ h0 ds hh
+  have hmi : C02.memberIdx aligned = members aligned := funext (c02_memberIdx_eq aligned)
+  obtain ⟨hnd, hmem, hcount, _⟩ := every_column_once aligned hn
+  have hrows : ∀ d j : Nat, (∃ row : List Rat, aligned[d]? = some row ∧ j < row.length) ↔
+      ∃ ds : C02.Dataset, g.datasets[d]? = some ds ∧ j < ds.nGlobal := by
+    intro d j
+    have hl := aligned_rows_same_length g.tol (ofC02 g.method) _ aligned hal' d
+    simp only [List.getElem?_map, Option.map_map] at hl
+    constructor
+    · rintro ⟨row, hr, hj⟩
+      rw [hr] at hl
+      cases hd : g.datasets[d]? with
+      | none => rw [hd] at hl; cases hl
+      | some ds =>
+        rw [hd] at hl
+        simp only [Option.map_some, Function.comp, Option.some.injEq] at hl
+        exact ⟨ds, rfl, by unfold C02.Dataset.nGlobal; omega⟩
+    · rintro ⟨ds, hd, hj⟩
+      rw [hd] at hl
+      cases hr : aligned[d]? with
+      | none => rw [hr] at hl; cases hl
+      | some row =>
+        rw [hr] at hl
+        simp only [Option.map_some, Function.comp, Option.some.injEq] at hl
+        exact ⟨row, rfl, by unfold C02.Dataset.nGlobal at hj; omega⟩
+  refine ⟨aligned, hal, ?_, ?_, ?_, ?_⟩
+  · rw [hdata]; simp only [c02_memberIdx_eq]
+  · rw [hmi, hax]; exact hnd
+  · intro d j; rw [hmi, hax, hmem d j]; exact hrows d j
+  · intro d j hdj; rw [hmi, hax]; exact hcount d j ((hrows d j).mpr hdj)
+
+/-- the repository's test axes as a C02 group: two datasets (model-axis sizes 2 and 1), one
+    compartment `c` with a column of ones, tolerance 1, nearest -/
+def exampleGroup : C02.Group :=
+  ⟨true, .vp, 1, .nearest,
+    [⟨"d1", [1, 5, 6], [[1, 2, 3], [4, 5, 6]], none, none, [⟨⟨["c"], .d2 [[1], [1]]⟩, none⟩], []⟩,
+     ⟨"d2", [0, 3, 7, 10], [[7, 8, 9, 10]], none, none, [⟨⟨["c"], .d2 [[1]]⟩, none⟩], []⟩]⟩
+
+-- the hypotheses of the C02 transfer theorems are satisfiable: the stacked problems of the example group
+example : (C02.linkedProblems {} exampleGroup).map (fun r => (r.1, r.2.map (·.data))) =
+    some ([1, 3, 5, 6, 10], [[1, 4, 7], [8], [2, 5], [3, 6, 9], [10]]) := by decide +kernel
+example : ∀ ds, exampleGroup.datasets.head? = some ds → ds.globalAxis.Nodup := by
+  intro ds h
+  simp only [exampleGroup, List.head?_cons, Option.some.injEq] at h
+  subst h
+  decide +kernel
+example : ∀ row ∈ [[1, 5, 6], [1, 3, 6, (10 : Rat)]], row.Nodup := by decide +kernel
 
 end Glotaran.C09
